@@ -117,6 +117,78 @@ class Real:
             return j["s"]
         if k == "RawV":
             return core.HTML(j["s"])
+        if k == "CNone":
+            return None
+        if k == "CInt":
+            return j["n"]
+        if k == "CFloat":
+            return float(j["fid"]) + 0.5
+        if k == "CBoolC":
+            return j["b"]
+        if k == "CNode":
+            return self.dec(j["node"])
+        if k == "CBad":
+            return self.Junk(j["oid"])
+        if k == "CSeq":
+            items = [self.dec(x) for x in self.unlist(j["items"])]
+            kind = j["kind"] % 3
+            if kind == 0:
+                return items
+            if kind == 1:
+                return tuple(items)
+            tl = core.TagList()
+            tl.data = items       # a TagList argument holds nodes only in reachable states; the generator respects that
+            return tl
+        if k in ("CNil", "CCons"):
+            return [self.dec(x) for x in self.unlist(j)]
+        if k == "VNone":
+            return None
+        if k == "VBool":
+            return j["b"]
+        if k == "VStr":
+            return j["s"]
+        if k == "VHtml":
+            return core.HTML(j["s"])
+        if k == "VInt":
+            return j["n"]
+        if k == "VFloat":
+            return float(j["fid"]) + 0.5
+        if k == "VOther":
+            return self.Junk(j["oid"])
+        if k in ("DNil", "DCons"):
+            d = {}
+            while j["$"] != "DNil":
+                d[j["k"]] = self.dec(j["v"]); j = j["tl"]
+            return d
+        if k in ("DDNil", "DDCons", "SNil", "SCons", "TNil", "TCons"):
+            return [self.dec(x) for x in self.unlist(j)]
+        if k == "TDict":
+            return self.dec(j["d"])
+        if k == "TChild":
+            return self.dec(j["c"])
+        if k == "NoAV" or k == "NoStr":
+            return None
+        if k == "SomeAV":
+            return self.dec(j["v"])
+        if k == "SomeStr":
+            return j["s"]
+        if k in ("CssNone",):
+            return None
+        if k == "CssStr":
+            return j["s"]
+        if k == "CssInt":
+            return j["n"]
+        if k == "CssFloat":
+            return float(j["fid"]) + 0.5
+        if k == "CssBool":
+            return j["b"]
+        if k == "CssList":
+            return [self.dec(x) for x in self.unlist(j["items"])]
+        if k in ("KNil", "KCons"):
+            d = {}
+            while j["$"] != "KNil":
+                d[j["k"]] = self.dec(j["v"]); j = j["tl"]
+            return d
         if k == "pylist":
             return [self.dec(x) for x in j["items"]]
         if k == "pytuple":
@@ -141,7 +213,7 @@ class Real:
 
     def unlist(self, j):
         out = []
-        while j["$"] not in ("NNil", "ANil", "SNil", "CNil", "DNil"):
+        while j["$"] not in ("NNil", "ANil", "SNil", "CNil", "DNil", "DDNil", "TNil", "KNil"):
             if j["$"] == "ACons":
                 out.append((j["k"], j["v"]))
             else:
@@ -180,6 +252,50 @@ class Real:
             return {"$": "pytuple", "items": [self.enc(x) for x in v]}
         return {"$": "opaque", "repr": repr(v)[:200], "type": type(v).__name__}
 
+    def enc_sort(self, v, sort):
+        """encode a real value as the JSON form of an L1 value of the given sort"""
+        core = self.core
+        def cons(items, nil, c):
+            r = {"$": nil}
+            for x in reversed(items):
+                r = dict({"$": c}, **x, tl=r)
+            return r
+        if sort in ("Str", "Int", "Nat", "Bool", "Any", "None", None):
+            return self.enc(v)
+        if sort == "Node":
+            return {"$": "Txt", "s": v} if isinstance(v, str) and not isinstance(v, core.HTML) else self.enc(v)
+        if sort == "NodeList":
+            items = list(v.data) if hasattr(v, "data") else list(v)
+            return cons([{"hd": self.enc_sort(x, "Node")} for x in items], "NNil", "NCons")
+        if sort == "AttrVal":
+            return {"$": "RawV", "s": v.data} if isinstance(v, core.HTML) else {"$": "Plain", "s": v} if isinstance(v, str) else self.enc(v)
+        if sort == "OptAV":
+            return {"$": "NoAV"} if v is None else {"$": "SomeAV", "v": self.enc_sort(v, "AttrVal")}
+        if sort == "OptStr":
+            return {"$": "NoStr"} if v is None else {"$": "SomeStr", "s": v}
+        if sort == "AttrList":
+            return cons([{"k": k, "v": self.enc_sort(x, "AttrVal")} for k, x in v.items()], "ANil", "ACons")
+        if sort == "StrList":
+            return cons([{"hd": x} for x in v], "SNil", "SCons")
+        if sort == "Child":
+            if v is None:
+                return {"$": "CNone"}
+            if isinstance(v, bool):
+                return {"$": "CBoolC", "b": v}
+            if isinstance(v, int):
+                return {"$": "CInt", "n": v}
+            if isinstance(v, float):
+                return {"$": "CFloat", "fid": int(v - 0.5)}
+            if isinstance(v, self.Junk):
+                return {"$": "CBad", "oid": v.uid}
+            if isinstance(v, (list, tuple, core.TagList)):
+                kind = 0 if isinstance(v, list) else 1 if isinstance(v, tuple) else 2
+                return {"$": "CSeq", "kind": kind, "items": self.enc_sort(list(v), "ChildList")}
+            return {"$": "CNode", "node": self.enc_sort(v, "Node")}
+        if sort == "ChildList":
+            return cons([{"hd": self.enc_sort(x, "Child")} for x in v], "CNil", "CCons")
+        return self.enc(v)
+
     def dep_uid(self, d):
         try:
             if d.head is None:
@@ -205,7 +321,7 @@ class Real:
     def enc_nodes(self, tl):
         r = {"$": "NNil"}
         for x in reversed(list(tl.data if hasattr(tl, "data") else tl)):
-            r = {"$": "NCons", "hd": self.enc(x), "tl": r}
+            r = {"$": "NCons", "hd": self.enc_sort(x, "Node"), "tl": r}
         return r
 
     def enc_attrs(self, d):
@@ -236,16 +352,23 @@ class Real:
             fn = self.resolve(job["fn"])
             args = [self.dec(a) for a in job.get("args", [])]
             kwargs = {k: self.dec(v) for k, v in job.get("kwargs", {}).items()}
-            snap = [self.enc(a) for a in args] if job.get("snapshot") else None
+            sorts = job.get("arg_sorts") or [None] * len(args)
+            snap_args = list(args)
+            if job.get("star") is not None:           # spread the *args parameter
+                i = job["star"]
+                args = args[:i] + list(args[i]) + args[i + 1:]
+            if job.get("starkw") is not None:
+                kwargs.update(self.dec(job["starkw"]))
+            snap = [self.enc_sort(a, s) for a, s in zip(snap_args, sorts)] if job.get("snapshot") else None
             try:
                 r = fn(*args, **kwargs)
-                res = {"ok": self.enc(r)}
+                res = {"ok": self.enc_sort(r, job.get("ret_sort"))}
             except RecursionError:
                 res = {"exc": "RecursionError"}
             except Exception as ex:
                 res = {"exc": type(ex).__name__, "msg": str(ex)[:300]}
             if job.get("snapshot"):
-                res["args_after"] = [self.enc(a) for a in args]
+                res["args_after"] = [self.enc_sort(a, s) for a, s in zip(snap_args, sorts)]
                 res["args_before"] = snap
             return res
         if kind == "script":
